@@ -477,8 +477,14 @@ def file_roundtrip(props=None):
     FBM = 'playback.tape_cassettes.file_based.file_based_tape_cassette'
     for s1, oc in ex.block(node.body, st):
         n += 1
+        obl.append(Obl('C07/%s/save/leaves_the_process_wide_serializer_configuration_alone' % U, ('C07', 'C06', 'C01'), s1, z3.BoolVal(not s1.g.get('serializer_options_changed')), oc))
         if oc[0] == 'raise':
-            obl.append(Obl('C07/%s/save/raises_only_ordinary' % U, P, s1, is_exc(oc[1]), oc)); continue
+            obl.append(Obl('C07/%s/save/raises_only_ordinary' % U, P, s1, is_exc(oc[1]), oc))
+            # C05: persisted whole or not at all -- a save that fails (an unserialisable value) leaves NO file behind, not even an empty one
+            # (a left-over file is later listed as a recording and breaks the lookup of its category)
+            obl.append(Obl('C05/%s/save/a_failed_save_leaves_the_directory_as_it_was' % U, ('C05', 'C07', 'C10'), s1,
+                           z3.And(s1.g['fs_dom'][q] == fs0[0][q], z3.Implies(fs0[0][q], s1.g['fs_text'][q] == fs0[1][q])), oc))
+            continue
         obl.append(Obl('C07/%s/save/writes_exactly_the_file_of_this_id' % U, P, s1,
                        z3.Implies(q != path_spec(d, rid), z3.And(s1.g['fs_dom'][q] == fs0[0][q], s1.g['fs_text'][q] == fs0[1][q])), oc))
         obl.append(Obl('C05/%s/save/recording_closed' % U, ('C05', 'C07'), s1, truthy(s1.rd(rec, '_closed')), oc))
@@ -589,7 +595,7 @@ def pickle_copy_unit(props=None):
     for s, oc in ex.block(node.body, st):
         n += 1
         if oc[0] == 'return':
-            obl.append(Obl('C11/pickle_copy/result_is_the_structural_copy_never_the_object_itself', ('C11', 'C01', 'C07'), s,
+            obl.append(Obl('C11/pickle_copy/result_is_the_structural_copy_never_the_object_itself', ('C11', 'C01', 'C07', 'C03'), s,
                            z3.And(oc[1] == CP(v), z3.Implies(Val.is_ref(v), oc[1] != v)), oc))
         else:
             obl.append(Obl('C11/pickle_copy/raises_only_ordinary', ('C11', 'C04'), s, is_exc(oc[1]), oc))
